@@ -11,6 +11,7 @@ import (
 	"sort"
 	"strconv"
 	"strings"
+	"sync"
 	"time"
 )
 
@@ -197,6 +198,7 @@ func genMain(args []string) {
 		}()
 		f(g)
 	}()
+	g.concurrentReplay()
 	for _, c := range g.st.changedLater() {
 		g.check(false, "result-changed-later", "bytes the library returned from one call were changed by a later call (the caller's copy of an earlier result is no longer what was returned): "+c, c)
 	}
@@ -238,3 +240,88 @@ func writeLines(path string, lines []string) {
 }
 
 func newRng(seed int64) *rand.Rand { return rand.New(rand.NewSource(seed)) }
+
+// statelessOp: operations whose result is a function of the line alone (no key object is created or advanced)
+func statelessOp(line string) bool {
+	k := line
+	if i := strings.IndexByte(line, ' '); i > 0 {
+		k = line[:i]
+	}
+	switch {
+	case strings.HasPrefix(k, "m."), strings.HasPrefix(k, "d."), strings.HasPrefix(k, "a."), strings.HasPrefix(k, "js."), strings.HasPrefix(k, "h."):
+		return true
+	case k == "x.verify", k == "x.wparams":
+		return true
+	case strings.HasPrefix(k, "dl."):
+		return k != "dl.malsign" && k != "dl.exits" && !strings.HasPrefix(k, "dl.new") && k != "dl.filled"
+	}
+	return false
+}
+
+// concurrentReplay: a sample of the stateless operations of this run is executed again on 12 goroutines at once (each in
+// its own order); every result must be the one obtained sequentially. A scratch buffer or table shared between calls —
+// in a packer, a hash wrapper, a codec — gives itself away here, whatever property the run is about.
+func (g *gen) concurrentReplay() {
+	type rec struct{ line, want string }
+	var sample []rec
+	seen := map[string]bool{}
+	var cost int
+	for i, l := range g.ops {
+		if i >= len(g.impl) || seen[l] || !statelessOp(l) || len(l) > 40000 {
+			continue
+		}
+		seen[l] = true
+		sample = append(sample, rec{l, g.impl[i]})
+	}
+	if len(sample) == 0 {
+		return
+	}
+	// at most 160 of them, spread over the run
+	if len(sample) > 160 {
+		step := len(sample) / 160
+		var s2 []rec
+		for i := 0; i < len(sample) && len(s2) < 160; i += step {
+			s2 = append(s2, sample[i])
+		}
+		sample = s2
+	}
+	_ = cost
+	var mu sync.Mutex
+	var wg sync.WaitGroup
+	start := make(chan struct{})
+	bad := map[string]string{}
+	for t := 0; t < 12; t++ {
+		wg.Add(1)
+		order := rand.New(rand.NewSource(g.seed*131 + int64(t))).Perm(len(sample))
+		go func(order []int) {
+			defer wg.Done()
+			<-start
+			st := newState()
+			st.dkeys = g.st.dkeys // existing key objects, read only
+			for round := 0; round < 2; round++ {
+				for _, i := range order {
+					got := execOp(st, sample[i].line)
+					if got != sample[i].want {
+						mu.Lock()
+						bad[sample[i].line] = got
+						mu.Unlock()
+					}
+				}
+			}
+		}(order)
+	}
+	close(start)
+	wg.Wait()
+	g.counts["concurrent-replay-ops"] = len(sample)
+	n := 0
+	for l, got := range bad {
+		if n < 3 {
+			g.check(false, "concurrent-result-differs", "a stateless operation returns a different result when 12 goroutines run such operations at once: "+trunc(l, 80)+" => "+trunc(got, 60), l)
+		}
+		n++
+	}
+	if n == 0 {
+		g.predEvals += len(sample)
+		g.counts["pred:concurrent-result-differs"] += len(sample)
+	}
+}
